@@ -54,6 +54,14 @@ def gen_condition(rng: random.Random, nested_ok=True):
         return bid
 
     block(0, 0, used_by_parent)
+    # call chain between the harness transaction and a method-parent: transaction -> w1 -> ... -> wk -> parent,
+    # every hop plain, under m.If(cond) or with enable_call=cond ("the enclosing body runs" must then be the
+    # parent's own run signal, not the transaction's)
+    d["chain"] = []
+    if d["pkind"] == "M" and rng.random() < 0.6:
+        for _ in range(rng.randint(1, 3)):
+            kind = rng.choice(["plain", "plain", "if", "en"])
+            d["chain"].append({"kind": kind, "cond": inp() if kind != "plain" else 0})
     d["nin"] = nin
     return d
 
@@ -117,8 +125,28 @@ def build_condition(d):
                 @def_method(m, src, ready=sig(d["pready"]))
                 def _():
                     parent_body()
+                def hop(target, lvl):
+                    if lvl["kind"] == "if":
+                        with m.If(sig(lvl["cond"])):
+                            target(m)
+                    elif lvl["kind"] == "en":
+                        target(m, enable_call=sig(lvl["cond"]))
+                    else:
+                        target(m)
+
+                chain = d.get("chain") or [{"kind": "plain", "cond": 0}]
+                # chain[0] is the transaction's own call, chain[i] the call made by wrapper i
+                wrappers = [Method(name=f"w{i}") for i in range(1, len(chain))]
+                hops = wrappers + [src]
+                def define_wrapper(i, w):
+                    @def_method(m, w)
+                    def _():
+                        hop(hops[i + 1], chain[i + 1])
+
+                for i, w in enumerate(wrappers):
+                    define_wrapper(i, w)
                 with Transaction(name="caller").body(m, ready=sig(d["cready"])):
-                    src(m)
+                    hop(hops[0], chain[0])
                 H.pobj = src
             return m
 
